@@ -6,7 +6,7 @@ R/G contracts on the event head (A.2 shape: 0 / list / kAllDone) + counter-to-ze
 import re
 
 from vf.cxx2c import Rewriter, attach_loop_contracts, expand_lock
-from vf.extract import find_body
+from vf.extract import ExtractionBreak, find_body
 from vf.runner import Job
 
 F_EV = 'src/algo/one_shot_event.cpp'
@@ -19,7 +19,7 @@ F_ME = 'src/util/mutex_event.cpp'
 F_AE = 'src/util/atomic_event.cpp'
 
 TRUSTED = ['Job::Call of registered waiters (interface contract; Waiter::Call, TimedWaiter::Call, the coroutine awaiters are proved against it)',
-           'std::condition_variable / mutex semantics for MutexEvent; futex wait/notify of std::atomic for AtomicEvent']
+           'std::condition_variable / mutex semantics for MutexEvent (wait releases and re-acquires, may wake spuriously; the predicate forms return the predicate evaluated under the mutex, false only after the deadline)']
 DROPPED = ['the generic lambda `range` of WaitGroup::InsertRange is abstracted by a contract (returns how many of `count` futures took the callback)',
            'IntrusivePtr<TimedWaiter> local in TimedWait: its destructor is inserted as an explicit DecRef before each return (recipe rule)']
 ASSUMPTIONS = ['documented rule: Add is only called while the count is non-zero; every Sub(n) is matched by earlier accounting (n <= count)',
@@ -196,7 +196,7 @@ void harness(void) { ghost_havoc(); OneShotEvent* e; int r = Ready(e); if (r) VF
 typedef struct Waiter { Job job; int ev; } Waiter;
 unsigned char g_my_call_done;     /* the event released this waiter (its Call ran, which only SetImpl does) */
 int W_Make(Waiter* w) __CPROVER_assigns() __CPROVER_ensures(1);
-/* DefaultEvent::Wait returns only after Set (proved for MutexEvent / AtomicEvent), and Waiter::Call is exactly Set (own job) */
+/* DefaultEvent::Wait returns only after Set (proved for MutexEvent; AtomicEvent is not compiled in this tree: YACLIB_FUTEX is fixed to 0), and Waiter::Call is exactly Set (own job) */
 void W_Wait(Waiter* w, int token) __CPROVER_requires(g.linked) __CPROVER_assigns(g_my_call_done) __CPROVER_ensures(g_my_call_done == 1);
 ''' + contract_try.replace('__CPROVER_requires(__CPROVER_is_fresh(self, sizeof(*self)) && __CPROVER_is_fresh(job, sizeof(*job)))\n', '').replace('g.me == (uintptr_t)job)', '1)') + ''';
 void Wait(OneShotEvent* self)
@@ -531,6 +531,41 @@ __CPROVER_ensures(self->_is_ready == 0)
 void harness(void) { MutexEvent* e; g_reset_allowed = 1; Reset(e); VF_CANARY("end"); }
 '''
     out.append(Job('mutex_event/Reset', props, src, 'harness', enforce='Reset', funcs=[b_reset], expect=[r'postcondition'], meta={'fn': 'MutexEvent::Reset'}))
+    # the two timed Wait overloads (header): std::condition_variable::wait_for / wait_until WITH a predicate
+    F_MEH = 'include/yaclib/util/detail/mutex_event.hpp'
+    for nm, sig, call in (('Wait.for', r'bool\s+Wait\s*\(\s*Token\s*&\s*token\s*,\s*const\s+std::chrono::duration<Rep,\s*Period>\s*&\s*timeout_duration\s*\)\s*noexcept', 'wait_for'),
+                          ('Wait.until', r'bool\s+Wait\s*\(\s*Token\s*&\s*token\s*,\s*const\s+std::chrono::time_point<Clock,\s*Duration>\s*&\s*timeout_time\s*\)\s*noexcept', 'wait_until')):
+        try:
+            b = find_body(repo, F_MEH, sig, 'MutexEvent::' + nm, within=r'class\s+MutexEvent')
+            # `_cv.wait_xxx(token, t, [&] { return EXPR; })`: the lambda's expression becomes the predicate macro of the std semantics below; a call WITHOUT predicate is the plain timed wait
+            t = b.text
+            t, k = re.subn(r'_cv\.' + call + r'\(\s*token\s*,\s*\w+\s*,\s*\[&\]\s*\{\s*return\s+([^;{}]+);\s*\}\s*\)', r'CV_TIMED_WAIT_PRED(self, (\1))', t)
+            t, k2 = re.subn(r'_cv\.' + call + r'\(\s*token\s*,\s*\w+\s*\)', 'CV_TIMED_WAIT(self)', t)
+            if k + k2 != 1:
+                raise ExtractionBreak('MutexEvent::%s: expected exactly one `_cv.%s(token, ...)` call (found %d with and %d without a predicate lambda of the form [&] { return E; })' % (nm, call, k, k2))
+            t = re.sub(r'std::cv_status::(\w+)', r'CV_\1', t)
+            c = Rewriter('MutexEvent::' + nm).rewrite(t)
+            src = MUTEX_EVENT + '''unsigned char g_timed_out;
+enum { CV_no_timeout, CV_timeout };
+/* std::condition_variable::wait_for / wait_until(lock, t, pred) is  `while (!pred()) if (wait(lock, t) == timeout) return pred(); return true;`: every blocking step releases the mutex
+   (anything the monitor invariant allows may happen), may wake spuriously, and reports timeout only after the deadline.  Its result is the predicate evaluated under the mutex at return;
+   it is false only after the deadline passed.  (Statement expression: PRED is re-evaluated in the final state.) */
+#define CV_TIMED_WAIT_PRED(self, PRED) ({ int vf_r; if (PRED) vf_r = 1; else { MON_WAIT(&(self)->_m); g_timed_out = nondet_bool(); __CPROVER_assume(g_timed_out || (PRED)); vf_r = (PRED) ? 1 : 0; } vf_r; })
+/* without a predicate: one blocking step; no_timeout may be a spurious wake-up */
+#define CV_TIMED_WAIT(self) ({ MON_WAIT(&(self)->_m); g_timed_out = nondet_bool(); g_timed_out ? CV_timeout : CV_no_timeout; })
+int Wait(MutexEvent* self, int token)
+__CPROVER_requires(__CPROVER_is_fresh(self, sizeof(*self)) && g_lock_held == 1 && self->_is_ready == (g.set_done != 0) && g.set_done <= 1 && g_timed_out == 0)   /* the token holds _m */
+__CPROVER_assigns(self->_is_ready, g, g_self, g_lock_held, g_timed_out)
+/* C11, C16: a timed Wait reports true only when Set has happened (seen under the mutex - spurious wake-ups do not count), false only after the deadline with the event still not set; the token's lock is held again */
+__CPROVER_ensures((RET == 0 || RET == 1) && g_lock_held == 1)
+__CPROVER_ensures(RET ==> g.set_done)
+__CPROVER_ensures(!RET ==> (g_timed_out && !g.set_done))
+{ g_self = self; ''' + c + '''}
+void harness(void) { MutexEvent* e; g_lock_held = 1; g_reset_allowed = 0; g_timed_out = 0; int r = Wait(e, 0); if (r) VF_CANARY("set in time"); else VF_CANARY("timed out"); }
+'''
+            out.append(Job('mutex_event/' + nm, props, src, 'harness', enforce='Wait', funcs=[b], canaries=2, expect=[r'postcondition'], meta={'fn': 'MutexEvent::' + nm}))
+        except ExtractionBreak as e:
+            ctx.breaks.append(str(e))
     return out
 
 
